@@ -2,7 +2,8 @@
    Statements only; proofs are in Proofs*.v. *)
 From Coq Require Import List ZArith Bool Reals.
 Import ListNotations.
-From FV.C20 Require Import Model ProofsCanon ProofsMerge ProofsVol ProofsTransfer ProofsCheck.
+From FV.C20 Require Import Model ModelReindex ProofsCanon ProofsMerge ProofsVol ProofsTransfer
+  ProofsCheck ProofsReindex.
 
 (* ---- merge step (merge_polyhedrons on one connected group) -------------
    hypothesis wf_poly: faces have >= 3 pairwise distinct nodes and every
@@ -69,6 +70,33 @@ Proof. exact wf_poly_b_iff. Qed.
 
 Theorem C20_uses_exactly_b_iff : forall K ps, uses_exactly_b K ps = true <-> uses_exactly K ps.
 Proof. exact uses_exactly_b_iff. Qed.
+
+(* ---- reindex (mesh_compressor.py:572): hypotheses: every face node is a
+   valid index and every node still in use is its own representative *)
+Theorem C20_reindex_exact : forall (ps : list poly) (conv : list Z),
+  (forall v, In v (all_nodes ps) -> (0 <= v < Z.of_nat (length conv))%Z) ->
+  (forall u, In u (all_nodes ps) -> nth (Z.to_nat u) conv u = u) ->
+  uses_exactly (r_K (reindex ps conv)) (r_faces (reindex ps conv)).
+Proof. exact reindex_exact. Qed.
+
+Theorem C20_reindex_injective : forall (ps : list poly) (conv : list Z),
+  (forall v, In v (all_nodes ps) -> (0 <= v < Z.of_nat (length conv))%Z) ->
+  forall u v, In u (all_nodes ps) -> In v (all_nodes ps) ->
+  new_id (assign (used_b ps) (zrange (Z.of_nat (length conv))) 0) u =
+  new_id (assign (used_b ps) (zrange (Z.of_nat (length conv))) 0) v -> u = v.
+Proof. exact reindex_injective. Qed.
+
+Theorem C20_closed_rename : forall phi p,
+  (forall u v, In u (pnodes p) -> In v (pnodes p) -> phi u = phi v -> u = v) ->
+  closed p -> closed (map (map phi) p).
+Proof. exact closed_rename. Qed.
+
+Example C20_example_reindex :
+  let ps := [[[5;2;7]; [9;5;7]; [9;2;5]; [9;7;2]]]%Z in
+  let conv := [0;1;2;2;4;5;5;7;8;9]%Z in
+  reindex ps conv = mkReindexed [[[1;0;2]; [3;1;2]; [3;0;1]; [3;2;0]]]%Z
+                                [-1;-1;0;0;-1;1;1;2;-1;3]%Z 4%Z.
+Proof. vm_compute. reflexivity. Qed.
 
 Print Assumptions C20_merge_closed.
 Print Assumptions C20_merge_volume.
